@@ -58,6 +58,24 @@ func (s *checkpoint) Save() {
 	s.saveLock.Lock()
 	defer s.saveLock.Unlock()
 
+	s.save()
+}
+
+// scheduledSave is the periodic save. Once the schedule was stopped it does nothing: the stream may have
+// been opened again with a new checkpoint (rebalance), whose saves do not share this one's lock, and a
+// late periodic save of this one could then write its older dump over a newer one of theirs.
+func (s *checkpoint) scheduledSave() {
+	s.saveLock.Lock()
+	defer s.saveLock.Unlock()
+
+	if !s.running {
+		return
+	}
+
+	s.save()
+}
+
+func (s *checkpoint) save() {
 	_, dirtyOffsets, anyDirtyOffset := s.stream.GetOffsets()
 
 	if !anyDirtyOffset {
@@ -225,11 +243,14 @@ func (s *checkpoint) StartSchedule() {
 		return
 	}
 
+	s.saveLock.Lock()
+	s.running = true
+	s.saveLock.Unlock()
+
 	go func() {
-		s.running = true
 		for s.running {
 			time.Sleep(s.config.Checkpoint.Interval)
-			s.Save()
+			s.scheduledSave()
 		}
 	}()
 
@@ -241,7 +262,10 @@ func (s *checkpoint) StopSchedule() {
 		return
 	}
 
+	// under the save lock: a periodic save that is in flight completes first, none starts afterwards
+	s.saveLock.Lock()
 	s.running = false
+	s.saveLock.Unlock()
 
 	logger.Log.Debug("stopped checkpoint schedule")
 }
